@@ -63,6 +63,26 @@ def check_dump_units(chk, r, n_seq):
             m = bytes(rep.ns()) if rep.t[0] != "none" else None
             if m != got:
                 chk.disagree("dump_pickle_to_hdf", case, None if m is None else len(m), len(got))
+        # large payloads (a checkpoint with its sample history is many MiB): growing and shrinking across several MiB, checked against
+        # the payload itself (not sent through the line protocol)
+        MiB = 1 << 20
+        for seq in ([3 * MiB, 5 * MiB + 17, int(4.5 * MiB), int(8.2 * MiB), int(7.9 * MiB), int(8.1 * MiB)], [9 * MiB + 1, 2 * MiB, 6 * MiB + 5]):
+            path = os.path.join(tmp, "big.h5")
+            chk.count("dump_sequence:large")
+            case = {"level": "dump", "sizes": seq}
+            chk.case(None, json.dumps(seq))
+            with h5py.File(path, "a") as f:
+                for j, nbytes in enumerate(seq):
+                    b = (np.arange(nbytes, dtype=np.uint32) * 2654435761 % 251 + 1).astype(np.uint8).tobytes()
+                    dump_pickle_to_hdf(BytesIO(b), f, path="checkpoint", dsetname="state")
+                    got = f["checkpoint"]["state"][...].tobytes()
+                    if got != b:
+                        bad = next((t for t in range(min(len(got), len(b))) if got[t] != b[t]), min(len(got), len(b)))
+                        chk.fail("the dataset holds byte-for-byte the most recent payload", dict(case, after_write=j),
+                                 f"after writing payload {j} ({nbytes} bytes) over {seq[j - 1] if j else 0} bytes: dataset has {len(got)} bytes, first difference at byte {bad}"
+                                 f"{' (zero from there on)' if not any(got[bad:bad + 4096]) else ''}", {"level": "dump", "clause": "bytes", "large": True})
+                        break
+            os.remove(path)
     finally:
         shutil.rmtree(tmp, ignore_errors=True)
 
@@ -71,7 +91,7 @@ def check_dump_units(chk, r, n_seq):
 def gen_cfg(r, i):
     cfg = {"seed": int(r.integers(1, 100000)), "dims": int(r.choice([1, 2])), "n_samples": int(r.choice([8, 12])), "kernel_steps": 2,
            "every": int(r.choice([1, 1, 2, 3, 4])), "like_width": float(r.choice([0.3, 0.6])),
-           "route": str(r.choice(["path", "auto", "auto"])), "pre_existing": bool(i % 4 == 3),
+           "route": ["path", "auto", "explicit_in_context", "auto"][i % 4], "pre_existing": bool(i % 4 == 3),
            "auto_pre": ["none", "fit", "importance", "refit", "none", "refit"][i % 6],
            # how the interruption arrives: an ordinary exception or a KeyboardInterrupt (Ctrl-C / SIGINT)
            "fault_kind": "interrupt" if i % 3 == 1 else "exception"}
@@ -126,6 +146,10 @@ def one_run(cfg, path, fault_at=None, fault_prior_at=None, log=None):
                         target.fault_at = None if fa is None else fa + 1
                         target.fault_prior_at = None if fp is None else fp + 1
                     s, h = a.sample_posterior(return_history=True, **kw)
+            elif cfg["route"] == "explicit_in_context":
+                # an explicit file and cadence given while a context for ANOTHER file (and another cadence) is active
+                with a.auto_checkpoint(path + ".other.h5", every=cfg["every"] + 2):
+                    s, h = a.sample_posterior(return_history=True, checkpoint_path=path, checkpoint_every=cfg["every"], **kw)
             else:
                 s, h = a.sample_posterior(return_history=True, checkpoint_path=path, checkpoint_every=cfg["every"], **kw)
             out.update(status="done", samples=s, history=h)
